@@ -43,12 +43,12 @@ def kind(e):
         return "vec"
     if t & X.et_cst:
         return "cst"
+    if t & X.et_slc:
+        return "slc"      # a slice of a register/ext keeps the base's type bits: test this first
     if t & X.et_lab:
         return "lab"
     if t & X.et_ext:
         return "ext"
-    if t & X.et_slc:
-        return "slc"
     if t & X.et_reg:
         return "reg"
     if t & X.et_cmp:
